@@ -41,6 +41,15 @@ func NewConnSniffer(conn net.Conn, timeout time.Duration) *ConnSniffer {
 // call-sites remain correct if ConnSniffer's internals are refactored.
 func (s *ConnSniffer) UnderlyingConn() net.Conn { return s.Conn }
 
+// CloseWrite forwards a half-close to the wrapped connection so that a relay
+// holding the sniffer as its client side can pass the upstream's end of stream on.
+func (s *ConnSniffer) CloseWrite() error {
+	if wc, ok := s.Conn.(interface{ CloseWrite() error }); ok {
+		return wc.CloseWrite()
+	}
+	return nil
+}
+
 func (s *ConnSniffer) Read(p []byte) (n int, err error) {
 	return s.Sniffer.Read(p)
 }
